@@ -144,7 +144,9 @@ impl MemcStore {
                             value -= delta.delta;
                         }
                         record.value = Bytes::from(value.to_string());
-                        record.header = header;
+                        // the request header supplies cas and expiration; the item keeps its flags
+                        record.header =
+                            Meta::new(header.cas, record.header.flags, header.get_expiration());
                         self.set(key, record).map(|result| DeltaResult {
                             cas: result.cas,
                             value,
